@@ -98,8 +98,12 @@ impl<S: Shape> MAnim<S> {
             self.last_transition = "idle-to-idle";
         }
         if will {
+            // a *fresh* twin built from the configuration, started once from the current values: the
+            // model must not inherit a defect of repeated start_with on one timeline instance
             let v = self.values.clone();
-            self.twins[s].as_mut().unwrap().start_with(&v);
+            let mut fresh = build_merged::<S>(&self.spec.states[s]);
+            fresh.start_with(&v);
+            self.twins[s] = Some(fresh);
         }
         self.t = Duration::ZERO;
         self.state = s;
